@@ -351,6 +351,24 @@ SELFTEST = [
     dict(id='zoned-compare-same-zone-shortcut', file='src/ace_time/ZonedDateTime.h',
          find='      return mOffsetDateTime.compareTo(that.mOffsetDateTime);',
          replace='      if (mTimeZone == that.mTimeZone) return localDateTime().compareTo(that.localDateTime());\n      return mOffsetDateTime.compareTo(that.mOffsetDateTime);', rule='R3', construct='ZonedDateTime::compareTo'),
+    dict(id='offset-added-spelled-out-silent', file='src/ace_time/OffsetDateTime.h',
+         find='        epochSeconds += timeOffset.toSeconds();', replace='        epochSeconds = timeOffset.toSeconds() + epochSeconds;', expect='silent'),
+    dict(id='offset-subtraction-commuted-silent', file='src/ace_time/OffsetDateTime.h',
+         find='      return mLocalDateTime.toEpochSeconds() - mTimeOffset.toSeconds();', replace='      return -mTimeOffset.toSeconds() + mLocalDateTime.toEpochSeconds();', expect='silent'),
+    dict(id='unix-factory-by-if-silent', file='src/ace_time/OffsetDateTime.h',
+         find='      acetime_t epochSeconds = (unixSeconds == LocalDate::kInvalidEpochSeconds)\n          ? unixSeconds\n          : unixSeconds - LocalDate::kSecondsSinceUnixEpoch;\n      return forEpochSeconds(epochSeconds, timeOffset);',
+         replace='      acetime_t epochSeconds = unixSeconds;\n      if (unixSeconds != LocalDate::kInvalidEpochSeconds) {\n        epochSeconds -= LocalDate::kSecondsSinceUnixEpoch;\n      }\n      return forEpochSeconds(epochSeconds, timeOffset);', expect='silent'),
+    dict(id='conversion-inlined-silent', file='src/ace_time/OffsetDateTime.h',
+         find='      acetime_t epochSeconds = toEpochSeconds();\n      return OffsetDateTime::forEpochSeconds(epochSeconds, timeOffset);',
+         replace='      return OffsetDateTime::forEpochSeconds(toEpochSeconds(), timeOffset);', expect='silent'),
+    dict(id='unix-constant-commuted-silent', file='src/ace_time/OffsetDateTime.h',
+         find='      return toEpochSeconds() + LocalDate::kSecondsSinceUnixEpoch;', replace='      return LocalDate::kSecondsSinceUnixEpoch + toEpochSeconds();', expect='silent'),
+    dict(id='zoned-factory-inlined-lookup-silent', file='src/ace_time/ZonedDateTime.h',
+         find='        TimeOffset timeOffset = timeZone.getUtcOffset(epochSeconds);\n        odt = OffsetDateTime::forEpochSeconds(epochSeconds, timeOffset);',
+         replace='        odt = OffsetDateTime::forEpochSeconds(epochSeconds, timeZone.getUtcOffset(epochSeconds));', expect='silent'),
+    dict(id='zoned-factory-branches-swapped-silent', file='src/ace_time/ZonedDateTime.h',
+         find='      if (epochSeconds == LocalDate::kInvalidEpochSeconds) {\n        odt = OffsetDateTime::forError();\n      } else {\n        TimeOffset timeOffset = timeZone.getUtcOffset(epochSeconds);\n        odt = OffsetDateTime::forEpochSeconds(epochSeconds, timeOffset);\n      }',
+         replace='      if (epochSeconds != LocalDate::kInvalidEpochSeconds) {\n        TimeOffset timeOffset = timeZone.getUtcOffset(epochSeconds);\n        odt = OffsetDateTime::forEpochSeconds(epochSeconds, timeOffset);\n      } else {\n        odt = OffsetDateTime::forError();\n      }', expect='silent'),
     dict(id='compareTo-else-chain-silent', file='src/ace_time/LocalDateTime.h',
          find='      if (thisSeconds < thatSeconds) return -1;\n      if (thisSeconds > thatSeconds) return 1;\n      return 0;',
          replace='      if (thisSeconds > thatSeconds) {\n        return 1;\n      } else if (thisSeconds == thatSeconds) {\n        return 0;\n      }\n      return -1;', expect='silent'),
